@@ -213,13 +213,13 @@ PROPS = {
         "assumptions": CTL_ASSUMPTIONS,
     },
     "C01": {
-        "batches": lambda tier: ctl_batches("mt", 800, 30000, per=200)(tier) + conn_batches([("c10", 100)], [("c10", 600), ("mixed", 1500)])(tier),
+        "batches": lambda tier: ctl_batches("seq", 1500, 40000)(tier) + ctl_batches("mt", 800, 30000, per=200)(tier) + conn_batches([("c10", 100)], [("c10", 600), ("mixed", 1500)])(tier),
         "replay_bin": "controlled", "need": ["wire", "seq", "eof", "nohang", "results", "noabort"], "agr_need": ["wire", "seq", "eof"],
         "rule": "whole server of the generated copy under the deterministic scheduler: 2..6 pipelined requests, each answered on its own handler thread after a random virtual delay "
                 "(every permutation of answering order arises) or all held by one thread in arrival order; respond (small, >1 KiB, chunked), into_writer with multi-part "
                 "writes +- flush, drop; random schedules incl. baton-keeping bias; the client-side byte stream must decode, in request order, to exactly the expected messages; "
                 "plus the pristine malformed-pipeline batch (417/400 must not overtake earlier answers)",
-        "required_tags": ["fam:mt", "fin:writer", "fin:writer0", "fin:drop", "fin:respond", "n:5"],
+        "required_tags": ["fam:mt", "fin:writer", "fin:writer0", "fin:drop", "fin:respond", "n:5", "untouched:1", "big:1", "flushmid:1"],
         "partial": [], "assumptions": CTL_ASSUMPTIONS + CONN_ASSUMPTIONS,
     },
     "C06": {
